@@ -34,7 +34,7 @@ mod imp {
     }
 
     /// Extra accepted query shapes the repository corpus does not contain (numbers schema).
-    const EXTRA: [(&str, &str); 8] = [
+    const EXTRA: [(&str, &str); 12] = [
         ("x_tag_twice_in_fold", r#"{ Number(min: 2, max: 4) { value @tag(name: "v") @output multiple(max: 3) @fold { value @output(name: "m") @filter(op: ">", value: ["%v"]) @filter(op: "!=", value: ["%v"]) } } }"#),
         ("x_tag_in_fold_and_nested_fold", r#"{ Number(min: 2, max: 4) { value @tag(name: "v") @output multiple(max: 3) @fold { value @output(name: "m") @filter(op: ">", value: ["%v"]) divisor @fold { value @output(name: "d") @filter(op: "<=", value: ["%v"]) } } } }"#),
         ("x_tag_only_in_nested_fold", r#"{ Number(min: 2, max: 4) { name @output value @tag(name: "v") multiple(max: 3) @fold { value @output(name: "m") divisor @fold { value @output(name: "d") @filter(op: "<=", value: ["%v"]) } } } }"#),
@@ -42,6 +42,10 @@ mod imp {
         ("x_inner_fold_tag_used_in_nested_fold", r#"{ Number(min: 2, max: 3) { value @output multiple(max: 3) @fold { value @tag(name: "m") @output(name: "mv") divisor @fold { value @output(name: "d") @filter(op: "<", value: ["%m"]) } } } }"#),
         ("x_optional_inside_fold", r#"{ Number(min: 0, max: 3) { value @output multiple(max: 2) @fold { value @output(name: "m") predecessor @optional { value @output(name: "p") } } } }"#),
         ("x_fold_inside_optional", r#"{ Number(min: 0, max: 2) { value @output predecessor @optional { value @output(name: "p") multiple(max: 2) @fold @transform(op: "count") @output(name: "cnt") { value @output(name: "m") } } } }"#),
+        ("x_tag_in_two_sibling_folds", r#"{ Number(min: 2, max: 4) { value @tag(name: "v") @output multiple(max: 3) @fold { value @output(name: "m") @filter(op: ">", value: ["%v"]) } successor { multiple(max: 2) @fold { value @output(name: "sm") @filter(op: ">", value: ["%v"]) } } } }"#),
+        ("x_tag_in_two_folds_of_one_vertex", r#"{ Number(min: 2, max: 4) { value @tag(name: "v") @output multiple(max: 3) @fold { value @output(name: "m") @filter(op: ">", value: ["%v"]) } predecessor @fold { value @output(name: "p") @filter(op: "<", value: ["%v"]) } } }"#),
+        ("x_two_tags_on_one_property_in_fold", r#"{ Number(min: 2, max: 4) { value @tag(name: "a") @tag(name: "b") @output multiple(max: 3) @fold { value @output(name: "m") @filter(op: ">", value: ["%a"]) @filter(op: "!=", value: ["%b"]) } } }"#),
+        ("x_recurse_inside_optional", r#"{ Number(min: 0, max: 2) { value @output predecessor @optional { value @output(name: "p") successor @recurse(depth: 2) { value @output(name: "r") } } } }"#),
         ("x_variable_used_twice", r#"{ Number(min: 0, max: 5) { value @output @filter(op: ">=", value: ["$x"]) successor { value @filter(op: "!=", value: ["$x"]) } } }"#),
     ];
 
@@ -67,5 +71,27 @@ mod imp {
 
     pub fn compile(case: &Case) -> Option<Arc<IndexedQuery>> {
         crate::frontend::parse(schema(&case.schema_name), &case.query).ok()
+    }
+
+    pub type Row = BTreeMap<Arc<str>, FieldValue>;
+    pub enum Run { Rows(Arc<IndexedQuery>, Vec<Row>), FrontendError(String), ArgumentError(String), Panic(String) }
+
+    /// Compile and execute a numbers-schema query on the repository's NumbersAdapter (at most `limit` rows).
+    pub fn run_numbers(query: &str, args: &[(&str, FieldValue)], limit: usize) -> Run {
+        let adapter = Arc::new(crate::numbers_interpreter::NumbersAdapter::new());
+        let iq = match crate::frontend::parse(adapter.schema(), query) { Ok(q) => q, Err(e) => return Run::FrontendError(format!("{e}")) };
+        let args: BTreeMap<Arc<str>, FieldValue> = args.iter().map(|(k, v)| (Arc::from(*k), v.clone())).collect();
+        let iq2 = iq.clone();
+        let attempt = std::panic::catch_unwind(std::panic::AssertUnwindSafe(move || {
+            match crate::interpreter::execution::interpret_ir(adapter, iq2, Arc::new(args)) {
+                Ok(rows) => Ok(rows.take(limit).collect::<Vec<_>>()),
+                Err(e) => Err(format!("{e}")),
+            }
+        }));
+        match attempt {
+            Ok(Ok(rows)) => Run::Rows(iq, rows),
+            Ok(Err(e)) => Run::ArgumentError(e),
+            Err(p) => Run::Panic(p.downcast_ref::<String>().cloned().or_else(|| p.downcast_ref::<&str>().map(|s| s.to_string())).unwrap_or_default()),
+        }
     }
 }
